@@ -47,7 +47,7 @@ end
 /-- the root record is a plain struct: its fields are compared as a set too -/
 def normSchema (fs : List Field) : List Field := sortFields (fs.map normField)
 
-def schemaEquiv (a b : List Field) : Bool := normSchema a == normSchema b
+def schemaEquiv (a b : List Field) : Bool := decide (normSchema a = normSchema b)
 
 /-- outcomes of tracing re-orderings / repetitions of one sample collection: `some s` = success -/
 def allEquiv : List (Option (List Field)) → Bool
